@@ -1036,10 +1036,13 @@ func DecodeCashAddress(str string) (string, []byte, error) {
 	}
 
 	// Get the prefix.
-	var prefix string
+	// Lower-case the prefix into a buffer of its own (appending to a string
+	// one character at a time is quadratic in the prefix length).
+	prefixBytes := make([]byte, prefixSize)
 	for i := 0; i < prefixSize; i++ {
-		prefix += string(lowerCase(str[i]))
+		prefixBytes[i] = lowerCase(str[i])
 	}
+	prefix := string(prefixBytes)
 
 	// Decode values.
 	valuesSize := len(str) - 1 - prefixSize
